@@ -8,6 +8,8 @@ CONSTANTS
   Interval = 11
   Deltas = {1, 11, 200, 3000}
   MaxChanges = 3
+  MaxCancels = 3
+  SkipCancelled = TRUE
   Timely = TRUE
   StaleFullBucket = TRUE
   StaleRateOnChange = FALSE
